@@ -245,17 +245,18 @@ func (p *Parser) led(tokenType tokType, node ASTNode) (ASTNode, error) {
 	case tLparen:
 		name := node.value
 		var args []ASTNode
-		for p.current() != tRparen {
-			expression, err := p.parseExpression(0)
-			if err != nil {
-				return ASTNode{}, err
-			}
-			if p.current() == tComma {
-				if err := p.match(tComma); err != nil {
+		if p.current() != tRparen {
+			for {
+				expression, err := p.parseExpression(0)
+				if err != nil {
 					return ASTNode{}, err
 				}
+				args = append(args, expression)
+				if p.current() != tComma {
+					break
+				}
+				p.advance()
 			}
-			args = append(args, expression)
 		}
 		if err := p.match(tRparen); err != nil {
 			return ASTNode{}, err
@@ -466,14 +467,16 @@ func (p *Parser) parseMultiSelectHash() (ASTNode, error) {
 		if p.current() == tComma {
 			err := p.match(tComma)
 			if err != nil {
-				return ASTNode{}, nil
+				return ASTNode{}, err
 			}
 		} else if p.current() == tRbrace {
 			err := p.match(tRbrace)
 			if err != nil {
-				return ASTNode{}, nil
+				return ASTNode{}, err
 			}
 			break
+		} else {
+			return ASTNode{}, p.syntaxError("Expected tComma or tRbrace, received: " + p.current().String())
 		}
 	}
 	return ASTNode{
